@@ -16,7 +16,7 @@ from gemdat.jumps import Jumps  # noqa: E402
 from gemdat.transitions import Transitions, _calculate_transition_events, _calculate_transitions_matrix  # noqa: E402
 
 PID = 'C05'
-MODULES = ['GProofs.Geometry', 'GProofs.C05']
+MODULES = ['GProofs.Geometry', 'GProofs.C05', 'GProofs.C05Lab']
 
 
 def build_system(rng, T=None, A=None, n_sites=None, inner=None, labels_mode=None):
@@ -178,6 +178,11 @@ def check_case(out: Outcome, case, tag):
                 want_lab[labels[a], labels[b]] += int(want_jm[a, b])
     if dict(c_lab) != dict(want_lab):
         out.fail('property', 'counter-by-label', case, expected=dict(want_lab), observed=dict(c_lab))
+    # the Lean label counter (GModel.Labels.counter; theorems counterGet_eq_matrix, counter_total)
+    r = core.drive1(f'labelcounter {n} ' + ' '.join(labels) + f' {len(jrows)} ' + ' '.join(f'{int(a)} {int(b)}' for a, b in jrows)).split()[1:]
+    m_lab = {(r[k], r[k + 1]): int(r[k + 2]) for k in range(0, len(r), 3)}
+    if m_lab != dict(c_lab):
+        out.fail('correspondence' if dict(c_lab) == dict(want_lab) else 'property', 'model-label-counter', case, expected=m_lab, observed=dict(c_lab))
     # graph edges = support of the matrix (every activation energy is finite here)
     try:
         g = jumps.to_graph()
@@ -223,6 +228,11 @@ def check_case(out: Outcome, case, tag):
             got_mean = rates.loc[pair]['rates'] if pair in rates.index else None
             if got_mean is None or not np.isclose(float(np.atleast_1d(got_mean)[0]), want_mean, rtol=1e-9):
                 out.fail('property', 'rates-aggregation', case, expected=want_mean, observed=str(got_mean), note=str(pair))
+                break
+            # Lean rateMean on the same counts (theorem rate_times_time: rate x atoms x total time = jumps in the parts)
+            mr_ = core.drive1(f'ratemean {len(cnts)} ' + ' '.join(str(int(c)) for c in cnts) + f' {A} {core.enc(float(part_time))}').split()
+            if mr_[0] != 'ok' or not np.isclose(float(core.dec_rat(mr_[1])), float(np.atleast_1d(got_mean)[0]), rtol=1e-9):
+                out.fail('correspondence', 'model-rate', case, expected=mr_, observed=str(got_mean), note=str(pair))
                 break
     if len(want_idx) >= 2 and touches_nosite:
         out.nontrivial.add(('j', json.dumps(case, sort_keys=True)))
@@ -287,10 +297,11 @@ SPEC = PropertySpec(
     replay=replay,
     classify=classify,
     rule=('random systems: pool lattice (cubic to triclinic), 2-6 sites on a k/8 grid with 1-3 labels, 1-4 atoms, 4-60 frames of random '
-          '(site, inner) histories (C03 generator), real Transitions/Jumps objects over a vibrating dyadic trajectory. On the '
+          '(site, inner) histories (C03 generator), real Transitions/Jumps objects over a vibrating dyadic trajectory; 40% with a site structure carrying a 3-6 % different '
+          'reference cell (distances are those of the simulation cell); Jumps with minimal residence in {0,1,3,6}. On the '
           'implementation: Jumps.matrix / Transitions.matrix entries = row counts, matrix sum = n_jumps, empty diagonal, _counter, '
           'label counter, graph edge set = support, jump_diffusivity for d=1,2,3 vs exact sum of squared certified minimum-image '
-          'distances (rel 1e-9), rates vs the per-part counters, occupancy per site / by label / sums; matrices vs the Lean as-is '
+          'distances (rel 1e-9), rates vs the counters of the time parts analysed independently with the same settings, occupancy per site / by label / sums; matrices vs the Lean as-is '
           'model of the fancy-index assignment. Non-trivial: >= 2 distinct (origin, destination) pairs and >= 1 event touching "no '
           'site"; distinct = distinct system.'),
     trusted=['np.unique(axis=0) order and last-write-wins fancy assignment as modelled in GModel.Counts.matrixAsIs',
